@@ -282,6 +282,11 @@ func Check(a CheckArgs) int {
 	var samples []any
 	fpUnion := map[uint64]struct{}{}
 	watchdogExpired, watchdogConfirmed := 0, 0
+	type hangItem struct {
+		s   *WorkerSummary
+		idx int
+	}
+	var hangs []hangItem
 	for _, wp := range procs {
 		s, err := readSummary(wp.outFile)
 		if wp.killed {
@@ -331,15 +336,46 @@ func Check(a CheckArgs) int {
 				fmt.Fprintf(os.Stderr, "note: worker %d: a shrink candidate exceeded the run budget; keeping the unshrunk tape\n", wp.idx)
 				continue
 			}
-			// confirm in a fresh process, first alone, then with the worker's history
-			fv, ok := confirmHang(exe, a, info, spec, s, wp.idx, workers, workDir)
-			if ok {
+			hangs = append(hangs, hangItem{s, wp.idx})
+		}
+	}
+	// confirm suspected no-progress runs in fresh processes (first alone, then with the
+	// worker's history); a few in parallel are enough to decide, the rest are the same class
+	if len(hangs) > 0 {
+		const maxConfirm = 3
+		n := len(hangs)
+		if n > maxConfirm {
+			n = maxConfirm
+		}
+		type conf struct {
+			fv *FoundViolation
+			ok bool
+		}
+		res := make([]conf, n)
+		var cw sync.WaitGroup
+		for i := 0; i < n; i++ {
+			cw.Add(1)
+			go func(i int) {
+				defer cw.Done()
+				fv, ok := confirmHang(exe, a, info, spec, hangs[i].s, hangs[i].idx, workers, workDir)
+				res[i] = conf{fv, ok}
+			}(i)
+		}
+		cw.Wait()
+		for i := 0; i < n; i++ {
+			if res[i].ok {
 				watchdogConfirmed++
-				found = append(found, *fv)
-			} else {
-				fmt.Fprintf(os.Stderr, "INFRA: worker %d watchdog fired at run %d (%s) but re-execution finished in time; not a violation\n", wp.idx, s.Hang.Run, s.Hang.Reason)
-				infra = true
+				found = append(found, *res[i].fv)
 			}
+		}
+		if watchdogConfirmed == 0 {
+			for i := 0; i < n; i++ {
+				h := hangs[i].s.Hang
+				fmt.Fprintf(os.Stderr, "INFRA: worker %d watchdog fired at run %d (%s) but re-execution finished in time; not a violation\n", hangs[i].idx, h.Run, h.Reason)
+			}
+			infra = true
+		} else if len(hangs) > n {
+			fmt.Fprintf(os.Stderr, "note: %d further workers hit the watchdog; not re-confirmed individually\n", len(hangs)-n)
 		}
 	}
 	total.Nontrivial = int64(len(fpUnion))
@@ -350,6 +386,10 @@ func Check(a CheckArgs) int {
 	var postV []Violation
 	if info.PostBatch != nil {
 		postV = info.PostBatch(bctx)
+		for _, m := range bctx.Infra {
+			fmt.Fprintln(os.Stderr, "INFRA:", m)
+			infra = true
+		}
 	}
 
 	// merge by signature: smallest tape wins
